@@ -33,18 +33,18 @@ plan("C01", "exploration",
      {"leader-elected": 2}, "at least two leader elections",
      {"quick": {"leader-elected": 200}, "thorough": {"leader-elected": 1250}})
 plan("C02", "exploration",
-     [sim("fig8", 20), sim("fig8x", 10), sim("random", 15), sim("lagging", 15)],
-     [sim("fig8", 170), sim("fig8x", 70), sim("random", 170), sim("lagging", 100), sim("crashpoints", 70), sim("random", 60, race=True)],
+     [sim("fig8", 18), sim("fig8x", 8), sim("random", 14), sim("lagging", 14), sim("restorefail", 8)],
+     [sim("fig8", 170), sim("fig8x", 70), sim("random", 170), sim("lagging", 100), sim("crashpoints", 70), sim("restorefail", 60), sim("snapfallback", 40), sim("random", 60, race=True)],
      {"fsm-apply": 20}, "at least 20 entries handed to FSMs",
      {"quick": {"fsm-restore": 20, "fsm-apply": 5000}, "thorough": {"fsm-restore": 125}})
 plan("C03", "exploration",
-     [sim("fig8", 14), sim("fig8x", 10), sim("storefail", 10), sim("random", 8), sim("elections", 6), sim("cfgquorum", 6), sim("dupae", 8)],
-     [sim("fig8", 270), sim("fig8x", 100), sim("storefail", 100), sim("random", 130), sim("elections", 100), sim("crashpoints", 70), sim("cfgquorum", 60), sim("cfggate", 40), sim("dupae", 60)],
+     [sim("fig8", 14), sim("fig8x", 10), sim("storefail", 10), sim("random", 8), sim("elections", 6), sim("cfgquorum", 6), sim("dupae", 6), sim("snapvote", 6)],
+     [sim("fig8", 270), sim("fig8x", 100), sim("storefail", 100), sim("random", 130), sim("elections", 100), sim("crashpoints", 70), sim("cfgquorum", 60), sim("cfggate", 40), sim("dupae", 60), sim("snapvote", 60)],
      {"leader-completeness-checked": 1}, "a leader was elected after entries were known to be committed",
      {"quick": {"leader-completeness-checked": 100}, "thorough": {"leader-completeness-checked": 750}})
 plan("C08", "exploration",
-     [sim("clients", 40), sim("random", 20)],
-     [sim("clients", 300), sim("random", 130), sim("fig8", 70), sim("clients", 60, race=True)],
+     [sim("clients", 36), sim("random", 14), sim("cfgquorum", 6), sim("fig8x", 4)],
+     [sim("clients", 300), sim("random", 130), sim("fig8", 70), sim("cfgquorum", 40), sim("fig8x", 40), sim("storefail", 60), sim("clients", 60, race=True)],
      {"call-ok:apply": 10}, "at least 10 acknowledged Apply calls",
      {"quick": {"call-ok:apply": 2000, "definite-failure": 50, "porcupine-ok": 30}, "thorough": {"porcupine-ok": 200}})
 plan("C09", "exploration",
@@ -53,13 +53,13 @@ plan("C09", "exploration",
      {"verify-ok": 1}, "a VerifyLeader call returned nil",
      {"quick": {"verify-ok": 100, "lease-cut:voters-cut-nonvoters-reachable": 20}, "thorough": {"verify-ok": 750}})
 plan("C10", "fault_enumeration",
-     [sim("crashpoints", 38), sim("snapcfg", 12), sim("random", 10)],
-     [sim("crashpoints", 330), sim("snapcfg", 100), sim("random", 130), sim("churn", 70), sim("restore", 50)],
+     [sim("crashpoints", 34), sim("snapcfg", 12), sim("random", 8), sim("snapfallback", 8)],
+     [sim("crashpoints", 330), sim("snapcfg", 100), sim("random", 130), sim("churn", 70), sim("restore", 50), sim("snapfallback", 60)],
      {"restart-checked": 4}, "at least one restart from a crash image was compared with what the new incarnation reports",
      {"quick": {"restart-checked": 300, "restart-with-snapshot": 30}, "thorough": {"restart-checked": 2000}})
 plan("C12", "exploration",
-     [sim("lagging", 20), sim("random", 14), sim("churn", 12), sim("longstale", 6), sim("storefail", 6), sim("monofail", 6)],
-     [sim("lagging", 170), sim("random", 170), sim("churn", 130), sim("crashpoints", 70), sim("longstale", 60), sim("storefail", 80), sim("restore", 60), sim("monofail", 40), sim("snaptrunc", 30), sim("random", 60, race=True)],
+     [sim("lagging", 20), sim("random", 14), sim("churn", 12), sim("longstale", 6), sim("storefail", 6), sim("monofail", 6), sim("restorefail", 4), sim("restoreedge", 4)],
+     [sim("lagging", 170), sim("random", 170), sim("churn", 130), sim("crashpoints", 70), sim("longstale", 60), sim("storefail", 80), sim("restore", 60), sim("monofail", 40), sim("snaptrunc", 30), sim("restorefail", 30), sim("restoreedge", 30), sim("random", 60, race=True)],
      {"tail-one-leader": 1}, "the quiet tail ended with the bounded-progress readings taken",
      {"quick": {"tail-member-checked": 60}, "thorough": {"tail-member-checked": 500}})
 plan("C13", "exploration",
@@ -83,8 +83,8 @@ plan("C18", "exploration",
      {"notify": 2}, "leadership notifications were delivered",
      {"quick": {"notify": 150, "leader-sample-checked": 100}, "thorough": {"notify": 1000}})
 plan("C20", "exploration",
-     [sim("restore", 50)],
-     [sim("restore", 400)],
+     [sim("restore", 44), sim("restoreedge", 8)],
+     [sim("restore", 400), sim("restoreedge", 60)],
      {"userrestore-ok": 1}, "a user Restore returned nil",
      {"quick": {"userrestore-ok": 20}, "thorough": {"userrestore-ok": 125}})
 
@@ -106,8 +106,8 @@ plan("C05", "exploration",
           "match / setConfiguration calls, plus seeded random sequences (<= 30 calls, 7 servers), each compared call by call with a brute-force reference; distinct = (initial configuration, startIndex) classes and sampled random cases. "
           "SIM: " + (SIM_RULE % "at least 5 leader commit advances were checked against the voters' reconstructed disks"))
 plan("C06", "fault_enumeration",
-     [tbl("handler", "TestC06", 8, "HANDLER"), sim("elections", 20), sim("crashpoints", 10), sim("xfervote", 6), sim("dupae", 4)],
-     [tbl("handler", "TestC06", 16, "HANDLER", wall=3000), sim("elections", 200), sim("crashpoints", 100), sim("random", 100), sim("xfervote", 50), sim("dupae", 40)],
+     [tbl("handler", "TestC06", 8, "HANDLER"), sim("elections", 20), sim("crashpoints", 10), sim("xfervote", 6), sim("dupae", 4), sim("snapvote", 4)],
+     [tbl("handler", "TestC06", 16, "HANDLER", wall=3000), sim("elections", 200), sim("crashpoints", 100), sim("random", 100), sim("xfervote", 50), sim("dupae", 40), sim("snapvote", 40)],
      None, None,
      {"quick": {"vote-granted": 300, "fault-before": 500, "own-candidacy-won": 100}, "thorough": {"fault-before": 10000, "own-candidacy-won": 2000}},
      rule="HANDLER: persisted state (term, vote record incl. term-without-candidate, log tail, configuration) x sequences of 2-3 RequestVote / RequestPreVote / heartbeat / TimeoutNow messages (TimeoutNow makes the server campaign itself; two fake peers hold its requests and grant them at the end, so a win after a grant to a competitor is seen) x "
